@@ -30,7 +30,7 @@ CONFIGS = {
         dict(NS=2, Sizes=[2, 1], VTypes=['C', 'I'], NR=2, MaxSteps=4, MaxSlices=2, Zhat=[1, 2]),
     ],
 }
-SAMPLE = {'quick': 1800, 'thorough': 60000}
+SAMPLE = {'quick': 1800, 'thorough': 24000}
 
 
 def consts_tla(c):
